@@ -99,6 +99,18 @@ def run (st : St) (t : List String) : String × St :=
       let h1 := handleStream st.reg (some (.register ra name))
       (answerText h1.answer ++ " probe=ok", { st with reg := h1.registry, fresh := st.fresh + 1 })
     | none => ("bad-op", st)
+  | ["iso", nsA, tpA, nsB, tpB] =>
+    -- c07_names_are_distinct_keys / c11_registry_isolation: the registry is keyed by the whole name
+    let a : Name := { ns := utf8Decode (unhx nsA), tp := utf8Decode (unhx tpA) }
+    let b : Name := { ns := utf8Decode (unhx nsB), tp := utf8Decode (unhx tpB) }
+    let h1 := handleStream st.reg (some (.register .subscriber a))
+    let h2 := handleStream h1.registry (some (.register .subscriber b))
+    let h3 := handleStream h2.registry (some (.register .publisher a))
+    let h4 := handleStream h3.registry (some (.register .publisher b))
+    let shared := decide (a = b)
+    (" ".intercalate [answerText h1.answer, answerText h2.answer, answerText h3.answer, answerText h4.answer] ++
+      (if shared then " a=from-a+from-b b=from-a+from-b" else " a=from-a b=from-b") ++ " probe=ok",
+     { st with reg := h4.registry })
   | ["stall", _] =>
     -- c17_other_topic_progress: a registration on another topic completes whatever topic A's channel holds
     -- (for a fresh peer, for a peer that queued up for A itself, and for the client whose publisher A blocks)
